@@ -4,6 +4,9 @@ import Autd3.Drv.Common
 `sender` / `sender_async` streams (C04, C11).  One controller at a time; `open` starts a new one.
 
 ```
+flavor <mt|ct>                                 (sender_async) the tokio runtime the following controllers live on: multi-thread
+                                               (Drop closes a link that says open, like the sync copy) or current-thread
+                                               (Drop only asks `is_open`; the default); answer `flavor <mt|ct>`
 open  <n> <T> <n|N> <SEND> <SEND> <DROP>       Controller::open_with_option (timeout T; link.open ok/Err;
                                                scripts of ForceFan, (Clear,Synchronize), Drop on failure)
 enable <bits>                                  geometry_mut(): Device::enable of device i := bit i ('1'/'0', one per device);
@@ -25,7 +28,7 @@ KIND  = R | P | G | Ehh        the frame's id | (id+127)%128 | (id+64)%128 | the
                                one KIND per device, enabled or not — for a disabled device "the frame's id" is the id its
                                untouched slot still carries
 CLOSE = c | o~SEND~SEND~SEND~(k|K)      close_impl: is_open, three sends, link.close ok/Err
-DROP  = c | o CLOSE                      Drop: is_open; if open (sync copy) close_impl
+DROP  = c | o CLOSE                      Drop: is_open; if open (sync copy, and async copy on a multi-thread runtime) close_impl
 stale <id>…                                   real-emulator case: devices left with last_msg_id = ack = id;
                                                open (timeout short) + one datagram through a delivering link;
                                                answer `<open>/<send> clear=<bits> sync=<bits> first=<bits> | <acks per poll>`
@@ -40,7 +43,12 @@ open Autd3.Ctl Autd3.Drv
 
 structure St where
   isAsync : Bool := false
+  /-- tokio runtime flavour the async controller lives on (`flavor` lines; meaningless for the sync copy) -/
+  flavor : Ctl.Flavor := .currentThread
   ctl : Option Ctl.St := none
+
+/-- which `Drop` applies: the sync copy's, or the async copy's on the current runtime flavour -/
+def St.dropFlavor (st : St) : Option Ctl.Flavor := if st.isAsync then some st.flavor else none
 
 def init : St := {}
 def initAsync : St := { isAsync := true }
@@ -204,10 +212,14 @@ def step (st : St) (line : String) : St × String :=
     match n.toNat?, parseT t, parseSend a, parseSend b, parseDrop c with
     | some n, some t, some a, some b, some c =>
       if (o = "n" ∨ o = "N") ∧ 0 < n ∧ n ≤ 16 then
-        let r := openWithOption st.isAsync n t { openOk := o = "n", forceFan := a, clearSync := b, drop := c }
+        let r := openWithOptionOn st.dropFlavor n t { openOk := o = "n", forceFan := a, clearSync := b, drop := c }
         ({ st with ctl := r.2.1 }, answer (showRes r.1) r.2.2)
       else (st, "bad-op")
     | _, _, _, _, _ => (st, "bad-op")
+  | ["flavor", f] =>
+    if f = "mt" then ({ st with flavor := .multiThread }, "flavor mt")
+    else if f = "ct" then ({ st with flavor := .currentThread }, "flavor ct")
+    else (st, "bad-op")
   | ["enable", bits] =>
     match st.ctl with
     | some c =>
@@ -257,7 +269,7 @@ def step (st : St) (line : String) : St × String :=
   | ["close", c, d] =>
     match st.ctl, parseClose c, parseDrop d with
     | some ctl, some c, some d =>
-      let r := close st.isAsync ctl c d
+      let r := closeOn st.dropFlavor ctl c d
       ({ st with ctl := none }, answer (showRes r.1) r.2)
     | _, _, _ => (st, "bad-op")
   | "stale" :: ids =>
